@@ -1,6 +1,44 @@
 import PdeVerif.Json
+import PdeVerif.Model.ParLoop
+import PdeVerif.Drv.C01
+import PdeVerif.Drv.C02
 namespace PdeVerif.Drv.C03
-open Lean PdeVerif
+open Lean PdeVerif PdeVerif.Stencil PdeVerif.BC
+open PdeVerif.Drv.C02 (arrFn parseCond)
+open PdeVerif.Drv.C01 (parseCfg ranks applyAt outIdx Cfg)
 
-def handlers : List (String × Handler) := []
+/-- {"cfg": {...as c01...}, "data": [padded input incl. components], "faces": [...as c02.ghost...]}
+ -> operator applied after the model set the ghost cells (row-major output over valid cells) -/
+def apply (j : Json) : Except String Json := do
+  let c ← parseCfg (← fld j "cfg")
+  let (rin, rout) ← ranks c.op
+  let data ← fldQs j "data"
+  let fshape := List.replicate rin c.dim ++ c.shape.map (· + 2)
+  let a0 : Arr Rat := arrFn fshape data.toArray
+  let facesJ ← (do getL pure (← fld j "faces"))
+  let faces ← facesJ.mapM (fun fj => do
+    let axis ← fldN fj "axis"
+    let upper ← fldB fj "upper"
+    let normal ← fldB fj "normal"
+    let dxf ← fldQ fj "dx"
+    let ncomp := if normal then rin - 1 else rin
+    let cnd ← parseCond (← fld fj "cond") ncomp
+    let f : Face := { shape := c.shape, rank := rin, axis := axis,
+                      side := if upper then .upper else .lower, normal := normal }
+    pure (f, dxf, cnd))
+  let a := setGhostAll faces a0
+  let vals ← (outIdx c rout).mapM (applyAt c a)
+  pure (jQs vals)
+
+/-- schedule model: {"n": cells, "perm": [..permutation of 0..n-1..], "vals": [..]} -> both executions -/
+def sched (j : Json) : Except String Json := do
+  let vals ← fldQs j "vals"
+  let perm ← fldNs j "perm"
+  let ws : List (Nat × Rat) := PdeVerif.ParLoop.kernelWrites (List.range vals.length) (fun c => vals.getD c 0)
+  let ws' := perm.map (fun p => (p, vals.getD p 0))
+  let o1 := PdeVerif.ParLoop.runWrites (fun _ => (0:Rat)) ws
+  let o2 := PdeVerif.ParLoop.runWrites (fun _ => (0:Rat)) ws'
+  pure (Json.arr #[jQs ((List.range vals.length).map o1), jQs ((List.range vals.length).map o2)])
+
+def handlers : List (String × Handler) := [("c03.apply", apply), ("c03.sched", sched)]
 end PdeVerif.Drv.C03
